@@ -479,6 +479,38 @@ class Program:
         except NotConst as ex:
             raise AnalysisError(f"cannot fold constant {modname}:{name} ({ex})")
 
+    # ---- module-level mutable state -----------------------------------------------------
+    def global_mutation_sites(self, modname: str, name: str) -> List[Dict[str, Any]]:
+        """Sites anywhere in the package that mutate or rebind the module-level name `modname.name`."""
+        key = (modname, name)
+        cache = self.__dict__.setdefault("_gm_cache", {})
+        if key in cache:
+            return cache[key]
+        sites: List[Dict[str, Any]] = []
+        target_mod = self.modules.get(modname)
+        for m in self.modules.values():
+            if not m.name.startswith("htmltools"):
+                continue
+            # under which local names is the global visible in module m?
+            aliases = set()
+            if m is target_mod:
+                aliases.add(name)
+            for local, (src, orig) in m.imports.items():
+                if orig == name and src == modname:
+                    aliases.add(local)
+            mod_aliases = {local for local, (src, orig) in m.imports.items()
+                           if (orig is None and src == modname) or (orig is not None and f"{src}.{orig}" == modname)}
+            if not aliases and not mod_aliases:
+                continue
+            for qn, fn in iter_functions(m):
+                sites.extend(_mutations_in(fn, aliases, mod_aliases, name, m.name, qn))
+            # module level statements (outside functions/classes)
+            top = ast.Module(body=[st for st in m.tree.body if not isinstance(st, (ast.FunctionDef, ast.ClassDef))], type_ignores=[])
+            for x in _mutations_in(top, aliases, mod_aliases, name, m.name, "<module>", top_level=True):
+                sites.append(x)
+        cache[key] = sites
+        return sites
+
     # ---- inventory -------------------------------------------------------------------
     def inventory(self) -> Dict[str, int]:
         nf = 0
@@ -489,6 +521,51 @@ class Program:
                 nc += 1
                 nf += len(c.methods)
         return {"units": len(self.modules), "functions": nf, "classes": nc}
+
+
+_MUTATORS = {"append", "extend", "insert", "pop", "remove", "clear", "update", "setdefault", "sort", "reverse", "add",
+             "discard", "popitem", "__setitem__", "__delitem__", "appendleft", "move_to_end", "cache_clear"}
+
+
+def _mutations_in(fn: ast.AST, aliases: set, mod_aliases: set, name: str, modname: str, qual: str,
+                  top_level: bool = False) -> List[Dict[str, Any]]:
+    out: List[Dict[str, Any]] = []
+    local_names: set = set()
+    declared_global: set = set()
+    if not top_level and isinstance(fn, (ast.FunctionDef, ast.AsyncFunctionDef)):
+        a = fn.args
+        for p in a.posonlyargs + a.args + a.kwonlyargs + ([a.vararg] if a.vararg else []) + ([a.kwarg] if a.kwarg else []):
+            local_names.add(p.arg)
+        for n in ast.walk(fn):
+            if isinstance(n, ast.Global):
+                declared_global.update(n.names)
+        for n in ast.walk(fn):
+            if isinstance(n, ast.Name) and isinstance(n.ctx, ast.Store) and n.id not in declared_global:
+                local_names.add(n.id)
+
+    def is_ref(e: ast.AST) -> bool:
+        if isinstance(e, ast.Name) and e.id in aliases and e.id not in local_names:
+            return True
+        if isinstance(e, ast.Attribute) and e.attr == name and isinstance(e.value, ast.Name) and e.value.id in mod_aliases \
+                and e.value.id not in local_names:
+            return True
+        return False
+
+    for n in ast.walk(fn):
+        if isinstance(n, (ast.Assign, ast.AugAssign, ast.AnnAssign, ast.Delete)):
+            tgts = n.targets if isinstance(n, (ast.Assign, ast.Delete)) else [n.target]
+            for t in tgts:
+                if isinstance(t, (ast.Subscript, ast.Attribute)) and is_ref(t.value):
+                    out.append({"module": modname, "where": qual, "text": norm(n), "kind": "store", "line": n.lineno})
+                elif isinstance(t, ast.Attribute) and is_ref(t):
+                    out.append({"module": modname, "where": qual, "text": norm(n), "kind": "rebind", "line": n.lineno})
+                elif isinstance(t, ast.Name) and not top_level and t.id in declared_global and t.id in aliases:
+                    out.append({"module": modname, "where": qual, "text": norm(n), "kind": "rebind", "line": n.lineno})
+                elif isinstance(t, ast.Name) and isinstance(n, ast.AugAssign) and top_level and t.id in aliases:
+                    out.append({"module": modname, "where": qual, "text": norm(n), "kind": "rebind", "line": n.lineno})
+        if isinstance(n, ast.Call) and isinstance(n.func, ast.Attribute) and n.func.attr in _MUTATORS and is_ref(n.func.value):
+            out.append({"module": modname, "where": qual, "text": norm(n), "kind": "mutcall", "line": n.lineno})
+    return out
 
 
 def _descend(fn: ast.FunctionDef, rest: List[str], modname: str, qual: str) -> ast.FunctionDef:
